@@ -44,7 +44,9 @@ Ret ==
                [] Ev.op = "stop" /\ Ev.r = "ok" -> IF okStop >= 1 THEN "StopOnce" ELSE IF startCalls = 0 THEN "Result.stop" ELSE ""
                [] Ev.op = "stop" /\ Ev.r = "not-started" -> IF c.okStartBefore >= 1 THEN "Result.stop" ELSE ""
                [] Ev.op = "stop" /\ Ev.r = "already-stopped" -> IF othersStop = 0 /\ cancels = 0 THEN "Result.stop" ELSE ""
-               [] Ev.op = "stop" /\ Ev.r = "stop-failed" -> ""        \* the tree did not terminate within the time-out given
+               \* the tree did not terminate within the time-out given: legitimate only if the scenario contains an actor
+               \* that takes longer than that time-out to terminate (Ev.slow = 1)
+               [] Ev.op = "stop" /\ Ev.r = "stop-failed" -> IF Ev.slow = 1 THEN "" ELSE "StopTerminatesWithinTimeout"
                [] Ev.op = "stop" -> "Result.stop." \o Ev.r
                [] OTHER -> ""
            \* sequential clauses: what was already complete when the call was made
